@@ -12,6 +12,9 @@ CHECKS = {
     'C07': ('typed exception-flow fix-point over the whole-program call graph (CHA, handler liveness, library-thrower table), containment check at every engine callback site and at every thread root / C callback, CFG path query through each catch(ErrorEvent) handler, re-entrancy check of enqueue-and-rethrow handlers, dominance of fault guards',
             'Decides for all documents at once that no exception of a repository type can leave step() from a callback site or leave a thread root of the interpreter core, that every ErrorEvent handler on the executable-content path raises the error event on every path exactly once, that a failing block skips only itself, and that the anchored arithmetic/index faults are guarded.',
             'Not decided: out-of-bounds inside third-party C code; exceptions thrown by user-supplied monitors or by library calls outside the library-thrower table.'),
+    'C08': ('flow-sensitive lock-set analysis on the CFG (RAII guards with scopes, unique_lock lock/unlock, raw lock/unlock) with must-hold-on-entry across the call graph; who-may-mutate table for the FIFO ends; CFG x DFA product for the copy/remove/return protocol of dequeue; wait-loop and push/notify ordering rules; edge dominance and the exact _flags relation for the macrostep boundary',
+            'Decides for every schedule, by a lock-discipline argument, that each queue operation is atomic (every access to the queue under its mutex), FIFO-correct (add back / take front only), exactly-once (remove iff return the copied front), free of lost wake-ups, and that an external event is only dequeued after the spontaneous test failed and the internal queue was found empty; a step that took transitions always re-checks eventless transitions first.',
+            'Not decided: fairness/timing; semantics of std::condition_variable_any are assumed.'),
     'C12': ('call-graph who-calls rule for the single matcher; linear normal form of token guards and a confirmed table of skip/start/last-token combinations in the sibling scanner loops; structural fingerprint + decision-feature comparison of the two matcher copies; normalisation-feature extraction at every trie lookup',
             'Decides that interpreter, validator and debugger share one matcher, that every whitespace-splitting scanner (incl. the copies shipped for generated C) takes every non-empty token, that the shipped copy of the matcher has the same decision features, and that Promela and VHDL normalise descriptors alike before static resolution.',
             'Not decided: the relation nameMatch computes on all strings (needs execution or a solver).'),
